@@ -93,7 +93,7 @@ _REPLAY = _replay_arg()
 
 def _configs(tier):
     ns = [2, 3, 4, 8, 16] if tier == 'quick' else list(range(2, 17))
-    fr, tr = (10, 4) if tier == 'quick' else (40, 12)
+    fr, tr = (10, 4) if tier == 'quick' else (100, 30)
     out = []
     for mode in ('singleton', 'managed'):
         for n in ns:
